@@ -47,7 +47,10 @@ RULE = ('exact stream: random typed expression trees (depth <= 4) over polynomia
         'name, option) signatures among non-trivial cases.')
 TRUSTED = ['NumPy element-wise arithmetic on float64 (exact on the integer data of the exact stream: '
            'a magnitude bound < 2^50 is enforced by the generator)',
-           'translator tools/extract/ufunc_deriv.py (AST of derivative_factory -> Gen/UfuncDeriv.lean)']
+           'translator tools/extract/ufunc_deriv.py (derivative_factory / gradient_factory -> '
+           'Gen/UfuncDeriv.lean; sources ast-chain, ast-table or live behavioural identification on a '
+           'finite grid against a finite candidate vocabulary, each failing closed; the source used is in '
+           'the evidence under ufunc_table_sources)']
 ASSUMPTIONS = ['model world: spaces rn(n) and (nested) product spaces of them, flattened; a field '
                'range is dimension 1; scalars in a commutative ring (theorems) / Rat (driver); '
                'PowerOperator with integer exponent >= 1',
@@ -1654,8 +1657,11 @@ def table_stream(ctx, reps):
 def regenerate(ctx):
     from extract import ufunc_deriv
     changed = ufunc_deriv.regenerate()
+    ctx.extra['ufunc_table_sources'] = dict(ufunc_deriv.SOURCES)
     return [('extract(ufunc_ops.derivative_factory + gradient_factory -> Gen/UfuncDeriv.lean)', True,
-             'regenerated' if changed else 'unchanged')]
+             ('regenerated' if changed else 'unchanged') + ' sources: derivative={} gradient={}'.format(
+                 ufunc_deriv.SOURCES.get('derivative_table', {}).get('source'),
+                 ufunc_deriv.SOURCES.get('gradient_table', {}).get('source')))]
 
 
 def fixed_cases():
